@@ -34,293 +34,6 @@ func init() {
 	})
 }
 
-type c09State struct {
-	c       *Ctx
-	assign  map[string]bool // outcome variables
-	effects []string
-	notes   []string
-	bad     string
-	wrong   string // a definite violation found while interpreting
-	steps   int
-	muxConn ssa.Value
-}
-
-type c09Frame struct {
-	phis map[*ssa.Phi]ssa.Value // phi -> value selected on the executed path
-	fn   *ssa.Function
-	args map[*ssa.Parameter]string // class of parameter values
-	pass map[*ssa.Parameter]string // "conn"/"msg" identity of parameters
-}
-
-// keyClass classifies a map key value.
-func (s *c09State) keyClass(v ssa.Value, fr *c09Frame, prev *ssa.BasicBlock) string {
-	switch x := v.(type) {
-	case *ssa.Parameter:
-		if c, ok := fr.args[x]; ok {
-			return c
-		}
-		return "?param"
-	case *ssa.UnOp:
-		if x.Op == token.MUL {
-			if g, ok := x.X.(*ssa.Global); ok {
-				if g.Name() == "ALL_CMD_INDEX" {
-					return "ALL"
-				}
-				return "?global:" + g.Name()
-			}
-			if a, ok := x.X.(*ssa.Alloc); ok {
-				if flow.TypeIs(a.Type(), pkgDiam, "CommandIndex") {
-					return "EXACT"
-				}
-			}
-		}
-	case *ssa.BinOp:
-		if x.Op == token.ADD {
-			if suf, ok := flow.ConstString(x.Y); ok {
-				if tn, fld, _, ok := flow.FieldOf(flow.Peel(x.X)); ok && tn == "Command" && fld == "Short" {
-					return "NAME:" + suf
-				}
-			}
-		}
-	case *ssa.Phi:
-		if e, ok := fr.phis[x]; ok {
-			return s.keyClass(e, fr, nil)
-		}
-		for i, p := range x.Block().Preds {
-			if p == prev {
-				return s.keyClass(x.Edges[i], fr, nil)
-			}
-		}
-	}
-	return "?" + short(v.String(), 30)
-}
-
-// condValue resolves a branch condition under the current assignment.
-func (s *c09State) condValue(cond ssa.Value, fr *c09Frame, prev *ssa.BasicBlock) (bool, bool) {
-	v, neg := flow.Cond(cond, true)
-	res, ok := s.condValue1(v, fr, prev)
-	if neg {
-		res = !res
-	}
-	return res, ok
-}
-
-func (s *c09State) condValue1(v ssa.Value, fr *c09Frame, prev *ssa.BasicBlock) (bool, bool) {
-	switch x := v.(type) {
-	case *ssa.Extract:
-		if lk, ok := x.Tuple.(*ssa.Lookup); ok && lk.CommaOk && x.Index == 1 {
-			_, mf, _, _ := flow.FieldOf(lk.X)
-			cl := s.keyClass(lk.Index, fr, prev)
-			if strings.HasPrefix(cl, "?") {
-				s.bad = "a dispatch branch depends on a lookup with an unclassified key (" + cl + ")"
-				return false, false
-			}
-			if strings.HasPrefix(cl, "NAME:") {
-				// suffix must agree with the request bit on this path
-				want := "A"
-				if s.assign["REQ"] {
-					want = "R"
-				}
-				if strings.TrimPrefix(cl, "NAME:") != want {
-					s.wrong = fmt.Sprintf("the name key carries suffix %q on the path where the request bit is %v: requests are dispatched to the handler registered for answers (and vice versa)", strings.TrimPrefix(cl, "NAME:"), s.assign["REQ"])
-					s.bad = s.wrong
-					return false, false
-				}
-				cl = "NAME"
-			}
-			if (cl == "NAME") != (mf == "m") {
-				s.bad = "key class " + cl + " looked up in map " + mf
-				return false, false
-			}
-			return s.assign["hit"+cl], true
-		}
-	case *ssa.BinOp:
-		// err != nil of FindCommand
-		if x.Op == token.NEQ || x.Op == token.EQL {
-			var other ssa.Value
-			if flow.IsNilConst(x.Y) {
-				other = x.X
-			} else if flow.IsNilConst(x.X) {
-				other = x.Y
-			}
-			if ex, ok := other.(*ssa.Extract); ok {
-				if call, ok := ex.Tuple.(*ssa.Call); ok && flow.IsCallTo(call, pkgDict, "Parser", "FindCommand") && isErrorType(ex.Type()) {
-					notfound := !s.assign["FC"]
-					if x.Op == token.NEQ {
-						return notfound, true
-					}
-					return !notfound, true
-				}
-			}
-			// request bit: flags & 128 == 128
-			if mask, ok := reqBitTest(x, 0); ok {
-				if mask != 128 {
-					s.wrong = reqMaskMsg(mask)
-					s.bad = s.wrong
-					return false, false
-				}
-				return s.assign["REQ"], true
-			}
-		}
-	case *ssa.Call:
-		if mask, ok := reqBitTest(x, 0); ok {
-			if mask != 128 {
-				s.wrong = reqMaskMsg(mask)
-				s.bad = s.wrong
-				return false, false
-			}
-			return s.assign["REQ"], true
-		}
-	}
-	// a field of a local struct literal (idx.Request): evaluate what was stored there
-	if u, ok := v.(*ssa.UnOp); ok && u.Op == token.MUL {
-		if fa, ok := u.X.(*ssa.FieldAddr); ok {
-			if al, ok := fa.X.(*ssa.Alloc); ok {
-				for _, ref := range flow.Referrers(al) {
-					fa2, ok := ref.(*ssa.FieldAddr)
-					if !ok || fa2.Field != fa.Field {
-						continue
-					}
-					for _, r2 := range flow.Referrers(fa2) {
-						if st, ok := r2.(*ssa.Store); ok {
-							return s.condValue1(st.Val, fr, prev)
-						}
-					}
-				}
-			}
-		}
-	}
-	s.bad = "a dispatch branch depends on something other than the classified lookups, the dictionary result and the request bit: " + short(v.String(), 50)
-	return false, false
-}
-
-func (s *c09State) exec(fr *c09Frame) {
-	blk := fr.fn.Blocks[0]
-	var prev *ssa.BasicBlock
-	mem := map[*ssa.Alloc]ssa.Value{} // last value stored to a local on this path
-	if fr.phis == nil {
-		fr.phis = map[*ssa.Phi]ssa.Value{}
-	}
-	for s.bad == "" {
-		for _, in := range blk.Instrs {
-			if ph, ok := in.(*ssa.Phi); ok {
-				for i, p := range blk.Preds {
-					if p == prev {
-						fr.phis[ph] = ph.Edges[i]
-					}
-				}
-				continue
-			}
-			s.steps++
-			if s.steps > 5000 {
-				s.bad = "interpretation did not terminate (cycle in the dispatch code)"
-				return
-			}
-			switch x := in.(type) {
-			case *ssa.Store:
-				if a, ok := x.Addr.(*ssa.Alloc); ok {
-					mem[a] = x.Val
-				}
-			case *ssa.Call:
-				com := x.Common()
-				if com.IsInvoke() && com.Method.Name() == "ServeDIAM" {
-					// handler must be entry.h of a lookup
-					cl := "?"
-					var entry ssa.Value
-					switch hv := com.Value.(type) {
-					case *ssa.Field:
-						entry = hv.X
-					case *ssa.UnOp:
-						if fa, ok := hv.X.(*ssa.FieldAddr); ok && hv.Op == token.MUL {
-							if _, fld, _, _ := flow.FieldOf(fa); fld == "h" {
-								if a, ok := fa.X.(*ssa.Alloc); ok {
-									entry = mem[a]
-								}
-							}
-						}
-					}
-					if ex, ok := entry.(*ssa.Extract); ok && ex.Index == 0 {
-						if lk, ok := ex.Tuple.(*ssa.Lookup); ok {
-							cl = s.keyClass(lk.Index, fr, prev)
-							if strings.HasPrefix(cl, "NAME:") {
-								cl = "NAME"
-							}
-						}
-					}
-					// arguments must be the mux's own conn and message
-					okArgs := len(com.Args) == 2
-					if okArgs {
-						for i, a := range com.Args {
-							p, isP := a.(*ssa.Parameter)
-							want := []string{"conn", "msg"}[i]
-							if !isP || fr.pass[p] != want {
-								okArgs = false
-							}
-						}
-					}
-					if !okArgs {
-						s.bad = "a handler is invoked with something other than the dispatched (conn, message)"
-						return
-					}
-					s.effects = append(s.effects, "invoke "+cl)
-					continue
-				}
-				if flow.IsCallTo(x, pkgDiam, "ServeMux", "Error") {
-					s.effects = append(s.effects, "error")
-					continue
-				}
-				if isHandlerInvocation(x) {
-					s.effects = append(s.effects, "invoke ?dynamic")
-					continue
-				}
-				g := flow.StaticCallee(x)
-				if g != nil && g.Signature.Recv() != nil && flow.RecvTypeName(g.Signature) == "ServeMux" && g.Blocks != nil && g.Name() != "Error" {
-					nf := &c09Frame{fn: g, args: map[*ssa.Parameter]string{}, pass: map[*ssa.Parameter]string{}}
-					for i, p := range g.Params {
-						if i >= len(com.Args) {
-							break
-						}
-						a := com.Args[i]
-						if ap, ok := a.(*ssa.Parameter); ok && fr.pass[ap] != "" {
-							nf.pass[p] = fr.pass[ap]
-						}
-						t := p.Type()
-						if flow.TypeIs(t, pkgDiam, "CommandIndex") || types.Identical(t.Underlying(), types.Typ[types.String]) {
-							nf.args[p] = s.keyClass(a, fr, prev)
-						}
-					}
-					s.exec(nf)
-					if s.bad != "" {
-						return
-					}
-				}
-			case *ssa.Go:
-				s.bad = "go statement in the dispatch code"
-				return
-			case *ssa.Return:
-				return
-			case *ssa.Panic:
-				s.effects = append(s.effects, "panic")
-				return
-			case *ssa.If:
-				t, ok := s.condValue(x.Cond, fr, prev)
-				if !ok {
-					return
-				}
-				prev = blk
-				if t {
-					blk = blk.Succs[0]
-				} else {
-					blk = blk.Succs[1]
-				}
-			case *ssa.Jump:
-				prev = blk
-				blk = blk.Succs[0]
-			}
-		}
-	}
-}
-
 func runC09(c *Ctx) {
 	r := c.R
 	sd := c.P.Method("diam", "ServeMux", "ServeDIAM")
@@ -329,6 +42,8 @@ func runC09(c *Ctx) {
 		return
 	}
 	vars := []string{"FC", "hitEXACT", "hitNAME", "hitALL", "REQ"}
+	sufs := map[string]bool{}
+	exactKeys, badExact := 0, ""
 	for mask := 0; mask < 32; mask++ {
 		as := map[string]bool{}
 		var desc []string
@@ -336,13 +51,14 @@ func runC09(c *Ctx) {
 			as[v] = mask&(1<<uint(i)) != 0
 			desc = append(desc, fmt.Sprintf("%s=%v", v, as[v]))
 		}
-		st := &c09State{c: c, assign: as}
-		fr := &c09Frame{fn: sd, args: map[*ssa.Parameter]string{}, pass: map[*ssa.Parameter]string{}}
-		if len(sd.Params) == 3 {
-			fr.pass[sd.Params[1]] = "conn"
-			fr.pass[sd.Params[2]] = "msg"
+		st := c.c09Interpret(sd, as)
+		for k := range st.nameSuffix {
+			sufs[k] = true
 		}
-		st.exec(fr)
+		exactKeys += st.exactKeys
+		if st.badExactKey != "" {
+			badExact = st.badExactKey
+		}
 		var want string
 		switch {
 		case !as["FC"] && as["hitALL"]:
@@ -372,42 +88,13 @@ func runC09(c *Ctx) {
 		}
 	}
 
-	// ---- R2: exact key construction ----
-	flow.Instrs(sd, func(in ssa.Instruction) {
-		a, ok := in.(*ssa.Alloc)
-		if !ok || !flow.TypeIs(a.Type(), pkgDiam, "CommandIndex") {
-			return
+	// ---- R2: key construction, as observed on the interpreted paths ----
+	r.Check(exactKeys > 0 && badExact == "", "R2", fname(sd)+":exact-key", c.fpos(sd), "exact key = (Header.ApplicationID, Header.CommandCode, CommandFlags&0x80==0x80) wherever an index lookup is made", func() string {
+		if badExact != "" {
+			return badExact
 		}
-		fields := map[string]ssa.Value{}
-		for _, ref := range flow.Referrers(a) {
-			if fa, ok := ref.(*ssa.FieldAddr); ok {
-				_, fld, _, _ := flow.FieldOf(fa)
-				for _, r2 := range flow.Referrers(fa) {
-					if st, ok := r2.(*ssa.Store); ok {
-						fields[fld] = st.Val
-					}
-				}
-			}
-		}
-		hdr := func(v ssa.Value, f string) bool {
-			tn, fld, _, ok := flow.FieldOf(flow.Peel(v))
-			return ok && tn == "Header" && fld == f
-		}
-		good := hdr(fields["AppID"], "ApplicationID") && hdr(fields["Code"], "CommandCode")
-		if mask, ok := reqBitTest(fields["Request"], 0); !ok || mask != 128 {
-			good = false
-		}
-		r.Check(good, "R2", fname(sd)+":exact-key", c.pos(a), "exact key = (Header.ApplicationID, Header.CommandCode, CommandFlags&0x80==0x80)", "the exact-index key is not built from the message's application id, command code and request bit")
-	})
-	// name key suffixes appear on both edges (checked per path in R1); record
-	sufs := map[string]bool{}
-	flow.Instrs(sd, func(in ssa.Instruction) {
-		if bo, ok := in.(*ssa.BinOp); ok && bo.Op == token.ADD {
-			if s, ok := flow.ConstString(bo.Y); ok {
-				sufs[s] = true
-			}
-		}
-	})
+		return "no lookup with the exact (application, code, request bit) index is made on any dispatch path"
+	}())
 	var sl []string
 	for s := range sufs {
 		sl = append(sl, s)
@@ -428,10 +115,23 @@ func runC09(c *Ctx) {
 			if !ok {
 				return
 			}
-			_, mf, base, ok := flow.FieldOf(mu.Map)
-			if !ok || (mf != "m" && mf != "idxMap") {
+			_, mfName, base, ok := flow.FieldOf(mu.Map)
+			if !ok {
 				return
 			}
+			// the handler maps are recognised by their key type
+			mf := ""
+			if mt, isMap := mu.Map.Type().Underlying().(*types.Map); isMap {
+				if flow.TypeIs(mt.Key(), pkgDiam, "CommandIndex") {
+					mf = "idxMap"
+				} else if bt, isB := mt.Key().Underlying().(*types.Basic); isB && bt.Kind() == types.String {
+					mf = "m"
+				}
+			}
+			if mf == "" {
+				return
+			}
+			_ = mfName
 			n++
 			key := fmt.Sprintf("%s:update-%s#%d", fname(f), mf, n)
 			bp, _ := flow.Path(base)
@@ -481,12 +181,7 @@ func runC09(c *Ctx) {
 				return
 			}
 			// value carries the handler param
-			hv := false
-			if fs := structLitFields(mu.Value); fs != nil {
-				if p, ok := flow.Peel(fs["h"]).(*ssa.Parameter); ok && p == f.Params[2] {
-					hv = true
-				}
-			}
+			hv := entryCarriesHandler(mu.Value, f.Params[2], 0)
 			if !hv {
 				r.Fail("R3", key, c.pos(mu), "the stored entry does not carry the handler being registered")
 				return
@@ -568,4 +263,71 @@ func reqMaskMsg(v int64) string {
 		mask, want = v>>8, v&0xff
 	}
 	return fmt.Sprintf("the request/answer side of a message is decided by CommandFlags & %#x == %#x instead of the R bit (0x80) alone: messages with other flag bits set are dispatched to the handler of the wrong side", mask, want)
+}
+
+// entryCarriesHandler: v is a handler-map entry whose Handler-typed field holds the parameter hp — a struct
+// literal built in place, or the result of a package-local constructor that receives hp.
+func entryCarriesHandler(v ssa.Value, hp *ssa.Parameter, depth int) bool {
+	// a local entry: initialised as a whole (constructor result) and/or field by field
+	if u, ok := v.(*ssa.UnOp); ok && u.Op == token.MUL {
+		if a, isA := u.X.(*ssa.Alloc); isA {
+			whole, wholeOK, fieldOK, fieldBad := 0, true, false, false
+			for _, ref := range flow.Referrers(a) {
+				switch x := ref.(type) {
+				case *ssa.Store:
+					if x.Addr == ssa.Value(a) {
+						whole++
+						if !entryCarriesHandler(x.Val, hp, depth+1) {
+							wholeOK = false
+						}
+					}
+				case *ssa.FieldAddr:
+					for _, r2 := range flow.Referrers(x) {
+						if st, isSt := r2.(*ssa.Store); isSt && st.Addr == ssa.Value(x) && isHandlerIface(st.Val.Type()) {
+							if p, isP := flow.Peel(st.Val).(*ssa.Parameter); isP && p == hp {
+								fieldOK = true
+							} else {
+								fieldBad = true
+							}
+						}
+					}
+				}
+			}
+			if whole > 0 {
+				return wholeOK && !fieldBad
+			}
+			return fieldOK && !fieldBad
+		}
+	}
+	if fs := structLitFields(v); fs != nil {
+		for _, fv := range fs {
+			if isHandlerIface(fv.Type()) {
+				if p, ok := flow.Peel(fv).(*ssa.Parameter); ok && p == hp {
+					return true
+				}
+			}
+		}
+		return false
+	}
+	if call, ok := v.(*ssa.Call); ok && depth < 2 {
+		g := flow.StaticCallee(call)
+		if g == nil || g.Blocks == nil {
+			return false
+		}
+		for i, a := range call.Call.Args {
+			if p, isP := flow.Peel(a).(*ssa.Parameter); isP && p == hp && i < len(g.Params) {
+				all := true
+				rvs := flow.ReturnValues(g, 0)
+				for _, rv := range rvs {
+					if !entryCarriesHandler(rv, g.Params[i], depth+1) {
+						all = false
+					}
+				}
+				if all && len(rvs) > 0 {
+					return true
+				}
+			}
+		}
+	}
+	return false
 }
